@@ -151,6 +151,38 @@ theorem C12_one_time_event (guard : SplitGuard) (s : State) (r : Req) (nf : Byte
     rw [hues, ← ueOr_supi s r, ← hsup]; exact findUe_putUe_same _ _
   refine ⟨?_, ?_, ?_, ?_, ?_, ?_, hex⟩ <;> simp [step, create, hnf, hp, hone, hbad]
 
+/-- The notification address across ACCEPTED creates (sessions and one-time events alike): the subscriber is notified at an address
+    afterwards exactly when this create gave one or one was registered before - a create that gives none (an event, a further
+    session of another consumer) does not take the registered address away (the defect repaired in ad59108 `fix: a create without a
+    notification address leaves the registered one in place`: it was overwritten with the empty address, and the next recharge
+    notified nobody). -/
+theorem C12_create_keeps_address (guard : SplitGuard) (s : State) (r : Req) (nf : Bytes) (hnf : r.nf = some nf)
+    (hp : supiAccepted r.supi = true) (hbad : r.bad = false) :
+    ∃ ue', findUe (step guard s (.create r)).1.ues r.supi = some ue' ∧
+      ue'.notifyUri = ((ueOr s r).notifyUri || r.uri) := by
+  have key : ∃ ue' : Ue, (create s r).1.ues = putUe s.ues ue' ∧ ue'.supi = r.supi ∧
+      ue'.notifyUri = ((ueOr s r).notifyUri || r.uri) := by
+    unfold create ueOr
+    simp only [hnf, hp, hbad, not_true_eq_false, if_false, Bool.false_eq_true]
+    refine ⟨_, rfl, ?_, rfl⟩
+    cases hu : findUe s.ues r.supi with
+    | none => rfl
+    | some u => simp only; exact findUe_supi hu
+  obtain ⟨ue', h1, h2, h3⟩ := key
+  refine ⟨ue', ?_, h3⟩
+  show findUe (create s r).1.ues r.supi = some ue'
+  rw [h1, ← h2]; exact findUe_putUe_same _ _
+
+/-- … in particular: registered before, registered after -/
+theorem C12_registered_address_survives_create (guard : SplitGuard) (s : State) (r : Req) (nf : Bytes) (u : Ue)
+    (hnf : r.nf = some nf) (hp : supiAccepted r.supi = true) (hbad : r.bad = false)
+    (hu : findUe s.ues r.supi = some u) (hreg : u.notifyUri = true) :
+    ∃ ue', findUe (step guard s (.create r)).1.ues r.supi = some ue' ∧ ue'.notifyUri = true := by
+  obtain ⟨ue', h1, h2⟩ := C12_create_keeps_address guard s r nf hnf hp hbad
+  refine ⟨ue', h1, ?_⟩
+  have e : ueOr s r = u := by unfold ueOr; rw [hu]
+  rw [h2, e, hreg]; rfl
+
 /-- The empty reference designates nothing, in every state any history can reach: an update or release addressed to it
     is never accepted (400 for an unknown subscriber, 404 otherwise) and, by `C12_reject_no_effect`, has no effect - also
     right after a one-time event, whose Location ends in that empty reference (the defect repaired in 02d3fe6: the event's
